@@ -328,6 +328,7 @@ func drive() int {
 		}
 	}
 	rdir := filepath.Join(*fRoot, "replays", *fProp)
+	_ = os.RemoveAll(rdir) // replay files describe the latest run only
 	for _, f := range viol {
 		_ = os.MkdirAll(rdir, 0o755)
 		name := sanitize(f.Key) + ".json"
